@@ -71,7 +71,7 @@ def run(tier):
             osets.append(["-greedy"] + co + extra)
     runs = e2e.run_optimize(blocks, osets, assign="rotate" if tier == "quick" else "all")
     # witness blocks under every criterion
-    runs += e2e.run_optimize(blocks[-(63 + 3 * len(gen.ENV0) if tier == "quick" else 603 + 3 * len(gen.ENV0)):] + gen.size_fold_corpus(), [["-greedy"], ["-greedy", "-size"], ["-greedy", "-length"]], assign="all")
+    runs += e2e.run_optimize(blocks[-(63 + 3 * len(gen.ENV0) if tier == "quick" else 603 + 3 * len(gen.ENV0)):] + gen.size_fold_corpus() + gen.access_pair_corpus(), [["-greedy"], ["-greedy", "-size"], ["-greedy", "-length"]], assign="all")
     reqs, meta = [], []
     for text, opts, e, st in runs:
         if e is None:
